@@ -5,6 +5,7 @@ mod synth;
 mod c01;
 mod c02;
 mod drive;
+mod vm;
 mod walk;
 
 fn main() {
